@@ -818,6 +818,18 @@ def py_len(ctx, v):
         return v.nbits // 4
     if isinstance(v, SBytesBV):
         return v.nbytes
+    if isinstance(v, SBytes):
+        # number of bytes of the encoding: a pure function of the text, between 1 and 4 bytes per character for UTF-8
+        # (exactly one for ASCII text and for the one-byte encodings)
+        ctx.note("stub: len(text.encode(%s)) is the uninterpreted function py_encoded_len" % v.encoding)
+        f = z3.Function("py_encoded_len_%s" % v.encoding.replace("-", "_"), z3.StringSort(), z3.IntSort())
+        n, L = f(v.term), z3.Length(v.term)
+        if v.encoding == "utf-8":
+            ctx.assume(z3.And(n >= L, n <= 4 * L))
+            ctx.assume(z3.Implies(z3.InRe(v.term, z3.Star(z3.Range(chr(0), chr(127)))), n == L))
+        else:
+            ctx.assume(n == L)
+        return SInt(n)
     if isinstance(v, Sym):
         if isinstance(v, (SInt, SReal, SFP, SBool)):
             raise SymRaise(TypeError("object of type '%s' has no len()" % v.pytype.__name__))
